@@ -205,3 +205,53 @@ Proof.
   cbn [map snd] in Hcp, Hctx. rewrite Halone in Hcp, Hctx. split; [exact Hctx|].
   exists invs. split; [exact Hout|exact Hcp].
 Qed.
+
+(* ---- the context after ANY stream of clean units: the fold of "parse alone and store" (Driver.ctx_step, the function
+   behind the context histories of C05 / C06 / C19) over the units of type 7 and 8 ---- *)
+Definition ctx_after_unit (c : context) (u : list byte) : context :=
+  match u with
+  | [] => c
+  | b :: _ =>
+    match nal_header_new b with
+    | None => c
+    | Some hdr =>
+      if nal_unit_type_id hdr =? 7 then ctx_step c (CtxSps u)
+      else if nal_unit_type_id hdr =? 8 then ctx_step c (CtxPps u) else c
+    end
+  end.
+
+Lemma parse_alone_ctx c u : (exists q, unescape (skipn 1 u) = Some q) ->
+  snd (parse_in_ctx c (mk_inv [u] true)) = ctx_after_unit c u.
+Proof.
+  intros [q Hq]. unfold parse_in_ctx, ctx_after_unit. unfold inv_bytes. cbn [inv_chunks concat]. rewrite app_nil_r.
+  destruct u as [|b r]; [reflexivity|].
+  assert (Hne : b :: r <> []) by discriminate.
+  assert (Hq' : unescape (skipn 1 ((b :: r) ++ concat [])) = Some q) by (cbn [concat]; rewrite app_nil_r; exact Hq).
+  destruct (parse_view_chunk_independent (b :: r) [] q Hne (Forall_nil _) Hq') as [B1 _].
+  cbn [concat] in B1. rewrite app_nil_r in B1.
+  destruct (nal_header_new b) as [hdr|]; [|reflexivity].
+  destruct (nal_unit_type_id hdr =? 7).
+  { rewrite B1. cbn [ctx_step]. destruct (sps_from_bits (nal_bitsrc (b :: r))); reflexivity. }
+  destruct (nal_unit_type_id hdr =? 8).
+  { rewrite B1. cbn [ctx_step]. destruct (pps_from_bits c (nal_bitsrc (b :: r))); reflexivity. }
+  destruct (nal_unit_type_id hdr =? 6); [reflexivity|].
+  destruct ((nal_unit_type_id hdr =? 1) || (nal_unit_type_id hdr =? 5))%bool; [|reflexivity].
+  destruct (slice_header_read c hdr (bitsrc_of_source (SrcNal true [b :: r]))) as [[[[hh sid] pid] s']| | |]; reflexivity.
+Qed.
+
+Lemma alone_all_ctx us : forall c, Forall (fun u => exists q, unescape (skipn 1 u) = Some q) us ->
+  snd (alone_all c us) = fold_left ctx_after_unit us c.
+Proof.
+  induction us as [|u r IH]; intros c H; [reflexivity|]. inversion H as [|? ? Hu Hr]; subst.
+  cbn [alone_all fold_left snd]. rewrite (IH _ Hr), (parse_alone_ctx c u Hu). reflexivity.
+Qed.
+
+Theorem stream_context units t cs ctx0 pre :
+  Forall (fun u => unit_ok (snd u)) units -> (t = 0%nat \/ 3 <= t)%nat ->
+  Forall (fun u => exists p, unescape (skipn 1 (snd u)) = Some p) units ->
+  concat cs = annexb_encode units t ->
+  ps_ctx (fst (pipeline_run ctx0 [] pre (map APush cs ++ [AReset]))) = fold_left ctx_after_unit (map snd units) ctx0.
+Proof.
+  intros Hu Ht Hp Hc. destruct (pipeline_end_to_end units t cs ctx0 pre Hu Ht Hp Hc) as (invs & _ & _ & _ & Hctx).
+  rewrite Hctx. apply alone_all_ctx. rewrite Forall_map. exact Hp.
+Qed.
